@@ -70,4 +70,6 @@ def run(ctx, proof):
     for c in cases:
         ctx.count("repetitions", c["r"])
     mism = campaign.run_cases(ctx, cases, ORACLES)
+    import coqshard
+    coqshard.cross_check(ctx, cases, limit=8 if ctx.quick else 40)
     campaign.report_mismatches(ctx, mism, ORACLES, "compute_bounds_superadditive_monotone_approx_cached (impl) = compute_sam (model)")
